@@ -283,6 +283,14 @@ class VecLen:
                                          "lo": iv[0], "hi": iv[1], "ok": False, "orig": None,
                                          "need": "index < len (index not a constant)"})
             return
+        if name == VEC_POP and key0:
+            iv = self._iv(st, key0)
+            orig = iv[2][:-1] if iv[2] else None
+            last = iv[2][-1] if iv[2] else None
+            self.site_elem[bb] = ("elem", key0, last)
+            self.site_state[bb] = (key0, iv)
+            st.vec[key0] = (max(iv[0] - 1, 0), max(iv[1] - 1, 0) if iv[1] < INF else INF, orig)
+            return
         if name == VEC_PUSH and key0:
             iv = self._iv(st, key0)
             st.vec[key0] = (iv[0] + 1, iv[1] + 1 if iv[1] < INF else INF, None)
